@@ -127,6 +127,8 @@ def rand_exec(rng, nops):
             ops.append("remove %d" % c)
         else:
             ops.append("pair %d" % c)
+    # end-of-history probe: everything registered as writable-with-backlog must have been dispatched
+    ops += ["resume %d" % c for c in range(1, nc + 1)] + ["run", "run A A A A A A"] + ["check %d" % c for c in range(1, nc + 1)]       # (the first run consumes a pending interrupt)
     return ops
 
 
@@ -258,12 +260,21 @@ def run(ctx):
         os.remove(dot)
         if ctx.quick:
             walks = walks[::4]
-        check_executions(ctx, binary, [[c13.label_to_op(*x) for x in w] for w in walks], "graph_clients")
+        check_executions(ctx, binary, [[c13.label_to_op(*x) for x in w] + c13.TAIL for w in walks], "graph_clients")
     nexec, nops = (800, 40) if ctx.quick else (10000, 60)
     execs = [rand_exec(ctx.rng, nops) for _ in range(nexec)]
     check_executions(ctx, binary, execs, "random")
     # listeners and establishers: acceptable / connected sockets dispatched, nothing after remove (also from callbacks)
     execs = [rand_net_exec(ctx.rng, nops) for _ in range(nexec // 2)]
+    # connecting by host name: the resolver thread and interrupt() share one wake-up channel
+    rng = ctx.rng
+    for i in range(12 if ctx.quick else 120):
+        e = ["hlisten 1", "connhost 1 1"]
+        if rng.random() < 0.7:
+            e.append("waitresolve")
+        e += rng.choice([["interrupt", "run"], ["run"], ["interrupt", "interrupt", "run T"], ["rmconn 1", "waitresolve", "run"], ["run T", "interrupt", "run"]])
+        e += ["run E1 A", "run A A", rng.choice(["rmconn 1", "hclose 1", "nop_placeholder"]), "run A"]
+        execs.append([x for x in e if x != "nop_placeholder"])
     check_executions(ctx, binary, execs, "randomnet")
     # interrupt() from other threads, before or during run(): all interleavings of the protocol by TLC, schedules
     # replayed on the real Server under the cooperative scheduler
